@@ -677,6 +677,8 @@ impl RtrPerAddrMetrics {
         }
 
         // We don’t. Create a new slice with the address included.
+        #[cfg(feature = "verif-hooks")]
+        crate::verif::point("rtrmetrics.before_lock", || addr.to_string());
         let _write = self.write.lock();
 
         // Re-load self.addrs, it may have changed since.
@@ -693,6 +695,8 @@ impl RtrPerAddrMetrics {
         new_addrs.push((addr, Default::default()));
         new_addrs.extend_from_slice(&addrs[idx..]);
         let res = new_addrs[idx].1.clone();
+        #[cfg(feature = "verif-hooks")]
+        crate::verif::point("rtrmetrics.before_store", || addr.to_string());
         self.addrs.store(new_addrs.into());
         res
     }
